@@ -64,6 +64,22 @@ Theorem c13_checkpoint_store_copy_confined : forall (root raw rel files_root : s
 Proof. exact store_copy_confined. Qed.
 Print Assumptions c13_checkpoint_store_copy_confined.
 
+(* `..` is refused by checkpoint create whether the string is relative or absolute (a root without `..`) *)
+Theorem c13_checkpoint_refuses_parent : forall (root raw : str),
+  is_absolute root = true -> has_parent root = false -> has_parent raw = true ->
+  to_relative root raw = Err V_PARENT \/ to_relative root raw = Err V_OUTSIDE.
+Proof. exact to_relative_refuses_parent. Qed.
+Print Assumptions c13_checkpoint_refuses_parent.
+
+(* a relative string: refused iff it has `..`; otherwise recorded under a name with the same real
+   segments, i.e. the very file the file tools address for that string *)
+Theorem c13_checkpoint_relative : forall (root raw : str),
+  is_absolute root = true -> is_absolute raw = false ->
+  (has_parent raw = true -> to_relative root raw = Err V_PARENT)
+  /\ (has_parent raw = false -> exists rel, to_relative root raw = Ok rel /\ real_segs rel = real_segs raw).
+Proof. exact to_relative_relative. Qed.
+Print Assumptions c13_checkpoint_relative.
+
 (* the auto-checkpoint taken before `write` / `apply_patch` (as repaired): a request the tool refuses
    is refused before anything is handed to the checkpoint store *)
 Theorem c13_refused_write_reaches_no_store : forall (root raw : str) (e : N),
